@@ -299,7 +299,7 @@ def one_link_case(rec, rng, mats, matmod, custom, blocks):
                 b.add(c_)
         seq = []
         for _ in range(rng.randint(1, 6)):
-            who = rng.choice(["fuel", "clad", "gap", "set-fuel-od", "set-clad-id-hot"])
+            who = rng.choice(["fuel", "clad", "gap", "set-fuel-od", "set-clad-id-hot", "set-through-link-hot", "set-through-link-cold"])
             T = rng.uniform(20, 580)
             seq.append((who, T))
             if who == "fuel":
@@ -310,6 +310,23 @@ def one_link_case(rec, rng, mats, matmod, custom, blocks):
                 gap.setTemperature(T)
             elif who == "set-fuel-od":
                 fuel.setDimension("od", od1 * rng.uniform(.9, 1.05))
+            elif who in ("set-through-link-hot", "set-through-link-cold"):
+                # write a linked dimension of the gap with retainLink: the value lands on the owner (fuel.od / clad.id), which
+                # converts a hot value with ITS OWN expansion factor; the hot value must read back on both sides
+                key, owner, okey = rng.choice([("id", fuel, "od"), ("od", clad, "id")])
+                val = od1 * (rng.uniform(.9, 1.05) if key == "id" else rng.uniform(1.15, 1.25))
+                hotset = who.endswith("hot")
+                gap.setDimension(key, val, retainLink=True, cold=not hotset)
+                rec.hit("law.link-write")
+                got_gap, got_owner = gap.getDimension(key, cold=not hotset), owner.getDimension(okey, cold=not hotset)
+                if not relclose(got_owner, val, TOLERANCES["readback_rel"]) or not relclose(got_gap, val, TOLERANCES["readback_rel"]):
+                    rec.violation("link/write-through-link-does-not-read-back/%s" % ("hot" if hotset else "cold"),
+                                  "gap.setDimension(%s, %r, retainLink=True, cold=%s): gap reads %r, owner %s.%s reads %r" % (key, val, not hotset, got_gap, owner.name, okey, got_owner), dict(w, seq=seq))
+                if hotset:
+                    p_in, p_now = pct(owner.material, owner.inputTemperatureInC), pct(owner.material, owner.temperatureInC)
+                    f_owner = (100.0 + p_now) / (100.0 + p_in)
+                    if not relclose(owner.getDimension(okey, cold=True) * f_owner, val, TOLERANCES["law_rel"]):
+                        rec.violation("link/write-through-link-cold-value-not-owner-factor", "owner cold %s.%s = %r, hot %r / owner factor %r = %r" % (owner.name, okey, owner.getDimension(okey, cold=True), val, f_owner, val / f_owner), dict(w, seq=seq))
             else:
                 clad.setDimension("id", od1 * rng.uniform(1.15, 1.25), cold=False)
             rec.hit("law.link")
